@@ -56,6 +56,9 @@ def options():
             ),
             "twice": st.booleans(),
             "dtype": st.sampled_from(["f", "c"]),
+            "autojit": st.sampled_from([None] * 19 + [True]),
+            "backend": st.sampled_from([None, None, "numpy"]),
+            "entry": st.sampled_from(["contract", "contract", "contract_core", "get_contractor"]),
         }
     )
 
@@ -156,8 +159,20 @@ def run_case(spec, sub=None):
         if not ok:
             viol.append(f"sort_contraction_indices raised {r}")
     reps = 2 if opts["twice"] else 1
+    entry = opts.get("entry", "contract")
     for k in range(reps):
-        ok, got = guarded(tree.contract, arrays, **contract_kwargs(opts))
+        kw = contract_kwargs(opts)
+        if opts.get("autojit") and opts["impl"] != "rec":
+            # (a hand written numpy implementation cannot be traced by autoray)
+            kw["autojit"] = True
+        if entry == "get_contractor":
+            # the reusable compiled function (no slicing in this check)
+            ok, got = guarded(lambda: tree.get_contractor(**kw)(*arrays, backend=opts.get("backend")))
+        else:
+            if opts.get("backend"):
+                kw["backend"] = opts["backend"]
+            fn = tree.contract_core if entry == "contract_core" else tree.contract
+            ok, got = guarded(fn, arrays, **kw)
         if not ok:
             viol.append(f"contract raised {got}")
             break
@@ -183,7 +198,10 @@ def run_case(spec, sub=None):
         f"sort={None if opts['sort'] is None else opts['sort']['priority']}",
         f"prefer_einsum={opts['prefer_einsum']}",
         f"dtype={opts['dtype']}",
+        f"entry={entry}",
     ]
+    if opts.get("autojit"):
+        tags.append("autojit")
     return Outcome(viol, nontrivial, tags)
 
 
